@@ -80,7 +80,7 @@ def replay(progs, plans, settle=None):
         r, b = res[j["id"]], meta[j["id"]]
         name, mode, _ = j["id"].split("|")
         out.append({"id": j["id"], "prog": name, "mode": mode, "steps": len(b["plan"]), "div": r.get("replay_div", -1), "why": r.get("replay_why", ""),
-                    "prints": r.get("prints"), "crash": r.get("crash"), "hang": r.get("hang") or r.get("timeout"),
+                    "prints": r.get("prints"), "crash": r.get("crash"), "hang": r.get("hang") or r.get("timeout"), "late": r.get("late", 0), "blocked": r.get("blocked"),
                     "spec_out": list(b["out"]), "spec_err": list(b["err"]), "plan": norm_plan(b["plan"])})
     return out
 
